@@ -249,6 +249,26 @@ func bezierPart(c *vlib.Ctx) (int64, int64, any) {
 	m := c.RunSharded(nChunks+1, func(job int, jb *vlib.Job) {
 		report := func(key, what string, desc any) { jb.Violation(key, what, desc) }
 		if job == nChunks {
+			// spans that are mirror / point symmetric about their middle and touch or cross their chord there (the
+			// sampler's flatness test is perturbed by a random answer exactly for these), with every uniform answer
+			for _, cp := range [][]v2.Vec{
+				{{X: 0, Y: 0}, {X: 1, Y: 32}, {X: 2, Y: -128.0 / 3}, {X: 3, Y: 32}, {X: 4, Y: 0}},
+				{{X: 0, Y: 0}, {X: 1, Y: 8}, {X: 2, Y: -8}, {X: 3, Y: 0}},
+				{{X: 0, Y: 0}, {X: 1, Y: 3}, {X: 2, Y: -3}, {X: 3, Y: 0}},
+				{{X: 0, Y: 1}, {X: 2, Y: 1.5}, {X: 2, Y: 0.5}, {X: 4, Y: 1}},
+			} {
+				for _, a := range []float64{-1, 0, 0.1, 0.5, 0.75, 0.9, 1 - 1.0/(1<<53)} {
+					d := dev{}
+					if a >= 0 {
+						for k := 0; k < 4096; k++ {
+							d[k] = a
+						}
+					}
+					checkBez(report, cp, false, d)
+					jb.States++
+					jb.Transitions++
+				}
+			}
 			// handle specifications: end points with forward / reverse handles => cubic control points
 			for _, t1 := range thetas {
 				for _, r1 := range rs {
